@@ -1,5 +1,7 @@
 """RN.x - the naming discipline shared by C09 (canonicalisation), C10 (left factoring) and C33 (generated identifiers).
 
+RN.0 post-condition of generate_name / gen_name themselves: a name is returned only behind a complete scan of a fresh copy of
+     the exclusions made after the candidate's last modification (added after seed C33-a; see rn0).
 RN.1 every call of parol::utils::generate_name gets as `exclusions` an iterator over a *collector of the structure
      being extended*: variable_names(productions), var_names(pr), Cfg::get_non_terminal_set(), the accumulator of the
      fold that collects the generated names, Scope.names, GrammarTypeInfo.non_terminal_types.keys().  When the
@@ -209,3 +211,130 @@ def rn2(ctx, facts, rule, modules, floor):
                       "a synthesised `..%s` name is used without passing generate_name (other consumers: %s)"
                       % (suffix, sinks), where(b, line))
     ctx.require_floor(rule, "synthesised_names", n, floor)
+
+
+# ----------------------------------------------------------------------------------------------------------------- RN.0
+SCAN_CALLS = {"any", "all", "contains", "find", "position"}
+ADAPTORS = {"skip", "take", "filter", "skip_while", "take_while", "step_by", "filter_map", "peekable", "rev", "chain", "zip"}
+
+
+def _closure_captures(body, call, local):
+    """the closure argument of `call` captures a reference to `local`"""
+    for a in call.args[1:]:
+        rp = raw_operand_place(body, a)
+        if not rp:
+            continue
+        d = single_def(body, rp[0])
+        if d and d[0] == "assign" and d[3][0] == "agg" and d[3][1] == "closure":
+            for o in d[3][4]:
+                r2 = raw_operand_place(body, o)
+                if r2 and r2[0] == local:
+                    return True
+    return False
+
+
+def rn0(ctx, facts, rule):
+    """RN.0 post-condition of generate_name itself: a name is returned only after a *complete* scan of the exclusions found no
+    equal name, and that scan happened after the candidate's last modification.  For generate_name and its helper gen_name:
+    every local X that is moved into the return place must satisfy
+      (a) the returning block is reached only through the `not found` edge of a test T = exclusions.<scan>(|n| n == X) whose
+          iterator is a fresh, unadapted copy of the `exclusions` parameter (clone of parameter 1, no skip/take/filter...),
+      (b) every assignment of X reaches the return only through T (no path from a modification of the candidate to the
+          return that bypasses the scan).
+    A single forward pass over the exclusions (compare-and-bump inside `for n in exclusions`) violates (b): a name bumped at
+    position i is never compared with the names before i."""
+    n = 0
+    for path in (GEN, GEN + "::gen_name"):
+        try:
+            b = facts.body(path)
+        except AnchorMissing:
+            if path == GEN:
+                raise
+            continue
+        for d in b.defs(0):
+            if d[0] == "call":
+                c = d[3]
+                ok = c.path == GEN + "::gen_name" or c.path == GEN
+                ctx.check(ok, rule, "%s|returns-helper-result" % short(path),
+                          "the result of %s is returned unchanged" % short(c.path or "?"),
+                          "%s returns the result of %s, which is not a checked name generator" % (short(path), short(c.path or "?")),
+                          where(b, c.line))
+                n += 1
+                continue
+            if d[0] != "assign" or d[3][0] != "use":
+                ctx.bad(rule, "%s|return-value-shape" % short(path), "the return value of %s is computed in place (%s); cannot relate it "
+                        "to a scanned candidate" % (short(path), d[3][0]), where(b, b.line_of_block(d[1])))
+                continue
+            rp = raw_operand_place(b, d[3][1])
+            X = rp[0] if rp else None
+            r = d[1]
+            tests = []
+            for t in range(len(b.blocks)):
+                term = b.term(t)
+                if term[0] != "switch":
+                    continue
+                tt = operand_term(b, term[1])
+                neg = False
+                while tt[0] == "un" and tt[1] == "Not":
+                    tt, neg = tt[2], not neg
+                if tt[0] != "call":
+                    continue
+                c = tt[1]
+                nm = (c.path or "").split("::")[-1]
+                if nm not in SCAN_CALLS or not _closure_captures(b, c, X):
+                    continue
+                # fresh, unadapted iterator over parameter 1
+                it = operand_term(b, c.args[0]) if c.args else ("unknown",)
+                adapted = []
+                hops = 0
+                while it[0] == "call" and hops < 8:
+                    cn = (it[1].path or "").split("::")[-1]
+                    if cn in ADAPTORS:
+                        adapted.append(cn)
+                    if cn != "clone" and cn not in ADAPTORS and cn not in ("iter", "into_iter", "deref", "by_ref"):
+                        adapted.append("?" + cn)
+                    it = operand_term(b, it[1].args[0]) if it[1].args else ("unknown",)
+                    hops += 1
+                whole = it[0] == "path" and it[1] == 1 and not adapted
+                # `any`-like: found => true; the return must be on the not-found edge
+                notfound = {0} if not neg else {None}
+                if nm == "all":
+                    notfound = {None} if not neg else {0}
+                tests.append((t, c, whole, notfound, adapted))
+            okT = None
+            why = "no scan of the exclusions compares with the returned candidate"
+            for t, c, whole, notfound, adapted in tests:
+                if not whole:
+                    why = "the scan at line %d runs on an adapted / partially consumed iterator (%s)" % (c.line, adapted or "not parameter 1")
+                    continue
+                from .common import only_via_edge
+                if not only_via_edge(b, t, notfound, r):
+                    why = "the return is not confined to the `not found` edge of the scan at line %d" % c.line
+                    continue
+                # (b) every modification of X reaches r only through t
+                bypass = None
+                for dd in b.defs(X):
+                    start = None
+                    if dd[0] in ("call", "partcall"):
+                        tc = b.term(dd[1])
+                        start = [tc[4]] if len(tc) > 4 and isinstance(tc[4], int) else []
+                    elif dd[0] == "assign":
+                        start = [dd[1]] if dd[1] != t else []
+                    for s in start or []:
+                        if s == t:
+                            continue
+                        if r in cfg.reachable_from(b, s, avoid_blocks=[t]):
+                            bypass = b.line_of_block(dd[1])
+                if bypass is not None:
+                    why = "the candidate is modified at line %d and can reach the return without being scanned again" % bypass
+                    continue
+                okT = c
+                break
+            n += 1
+            ctx.check(okT is not None, rule, "%s|returned-name-was-scanned" % short(path),
+                      "`%s` is returned only behind a complete scan of the exclusions made after its last modification"
+                      % (b.local_name(X) or "_%s" % X),
+                      "%s returns `%s` although %s: the generated name can equal an excluded name (duplicate identifiers / helper "
+                      "non-terminals that clash with user names)" % (short(path), b.local_name(X) or "_%s" % X, why),
+                      where(b, b.line_of_block(r)))
+    ctx.require_floor(rule, "generate_name_return_paths", n, 3)
